@@ -140,6 +140,7 @@ package ipfscluster
 //@   ensures nLogPin == old(nLogPin) && nLogUnpin == old(nLogUnpin)
 //@   loop 1 (range metrics)
 //@     invariant len(peers) == len(metrics) && (forall k int :: 0 <= k && k < idx1 ==> peers[k] == metrics[k].Peer)
+//@   modifies heap(api.Pin), heap([]peer.ID)
 
 // ---- C04: pin / update / unpin change the log of consensus operations exactly as requested ----
 
@@ -184,12 +185,21 @@ package ipfscluster
 //@   ensures [returns-logged] nLogPin == old(nLogPin) + 1 ==> res != nil && *res == lastLogged
 //@   modifies nLogPin, lastLogged, heap(api.Pin)
 
+//@ interface IPFSConnector.BlockGet(ctx, c)
+//@   modifies nothing
+
+//@ func (c *Cluster) cidsFromMetaPin
+//@   property C04
+//@   ensures nLogPin == old(nLogPin) && nLogUnpin == old(nLogUnpin)
+//@   modifies nothing
+
 //@ func (c *Cluster) unpinClusterDag
 //@   property C04
 //@   ensures nLogPin == old(nLogPin)
 //@   ensures nLogUnpin >= old(nLogUnpin)
 //@   loop 1 (range cids)
 //@     invariant nLogPin == old(nLogPin) && nLogUnpin == old(nLogUnpin) + idx1
+//@     invariant forall q *api.Pin :: !fresh(q) ==> *q == old(*q)
 //@   modifies nLogUnpin, lastUnlogged
 
 //@ func (c *Cluster) Unpin
@@ -201,3 +211,38 @@ package ipfscluster
 //@   ensures [data-exactly-one] haskey(pinset, h) && pinset[h].Type == api.DataType && !c.config.FollowerMode ==> nLogUnpin == old(nLogUnpin) || (nLogUnpin == old(nLogUnpin) + 1 && lastUnlogged == pinset[h])
 //@   ensures [success-removes-it] err == nil ==> nLogUnpin > old(nLogUnpin) && lastUnlogged.Cid == h && lastUnlogged == pinset[h]
 //@   modifies nLogUnpin, lastUnlogged
+
+// ---- C07: RPC authorization ----
+
+// the set of peers the consensus component currently trusts (ghost; Raft: everybody)
+//@ ghost var trustedSet set[peer.ID]
+
+//@ interface Consensus.IsTrustedPeer(ctx, pid)
+//@   ensures res == in(pid, trustedSet)
+//@   modifies nothing
+
+// the authorization function installed in the RPC server: default deny
+//@ closure newRPCServer#1
+//@   property C07
+//@   ensures [missing-denied] !haskey(c.config.RPCPolicy, svc + "." + method) ==> !res
+//@   ensures [open] haskey(c.config.RPCPolicy, svc + "." + method) && c.config.RPCPolicy[svc + "." + method] == RPCOpen ==> res
+//@   ensures [trusted] haskey(c.config.RPCPolicy, svc + "." + method) && c.config.RPCPolicy[svc + "." + method] == RPCTrusted ==> (res <==> in(pid, trustedSet))
+//@   ensures [closed] haskey(c.config.RPCPolicy, svc + "." + method) && c.config.RPCPolicy[svc + "." + method] != RPCOpen && c.config.RPCPolicy[svc + "." + method] != RPCTrusted ==> !res
+//@   modifies nothing
+
+//@ directive rpc_methods_in_policy newRPCServer DefaultRPCPolicy
+//@   property C07
+
+// "only the identity, version and join-handshake endpoints are open to untrusted peers"
+//@ lemma open_endpoints: forall k string :: haskey(DefaultRPCPolicy, k) && DefaultRPCPolicy[k] == RPCOpen ==> k == "Cluster.ID" || k == "Cluster.Version" || k == "Cluster.PeerAdd"
+//@   property C07
+
+// every value of the table is one of the three endpoint types (so "not open, not trusted" means closed)
+//@ lemma policy_values: forall k string :: haskey(DefaultRPCPolicy, k) ==> DefaultRPCPolicy[k] == RPCOpen || DefaultRPCPolicy[k] == RPCTrusted || DefaultRPCPolicy[k] == RPCClosed
+//@   property C07
+
+// "endpoints meant for local use are refused to every remote caller": the specification list LOCAL_ONLY
+// (registered endpoints that the repository never calls with a non-local destination; see DESIGN.md §5-C07)
+//@ spec func localOnly(k string) bool = k == "Cluster.Alerts" || k == "Cluster.BlockAllocate" || k == "Cluster.ConnectGraph" || k == "Cluster.Join" || k == "Cluster.Pin" || k == "Cluster.PinGet" || k == "Cluster.PinPath" || k == "Cluster.Pins" || k == "Cluster.Recover" || k == "Cluster.RecoverAll" || k == "Cluster.RepoGC" || k == "Cluster.SendInformerMetric" || k == "Cluster.SendInformersMetrics" || k == "Cluster.Status" || k == "Cluster.StatusAll" || k == "Cluster.StatusAllLocal" || k == "Cluster.StatusLocal" || k == "Cluster.Unpin" || k == "Cluster.UnpinPath" || k == "Consensus.Peers" || k == "IPFSConnector.BlockGet" || k == "IPFSConnector.ConfigKey" || k == "IPFSConnector.Pin" || k == "IPFSConnector.PinLs" || k == "IPFSConnector.PinLsCid" || k == "IPFSConnector.Resolve" || k == "IPFSConnector.Unpin" || k == "PeerMonitor.LatestMetrics" || k == "PeerMonitor.MetricNames" || k == "PinTracker.RecoverAll" || k == "PinTracker.Track" || k == "PinTracker.Untrack"
+//@ lemma local_only_closed: forall k string :: localOnly(k) ==> haskey(DefaultRPCPolicy, k) && DefaultRPCPolicy[k] == RPCClosed
+//@   property C07
